@@ -285,6 +285,19 @@ class Gate:
             )
             raise NotImplementedError(error_str)
 
+        if self.control_value is not None and (
+            self.controls is None
+            or len(self.controls) == 0
+            or self.control_value != 2 ** len(self.controls) - 1
+        ):
+            # The QASM gate is chosen by the name alone and acts when all
+            # the control qubits are 1.
+            err_msg = (
+                "Exporting a gate with control_value={} is not implemented: "
+                "a QASM gate acts when all the control qubits are 1."
+            ).format(self.control_value)
+            raise NotImplementedError(err_msg)
+
         if (
             self.classical_controls is not None
             and len(self.classical_controls) > 0
